@@ -29,6 +29,15 @@ def prog(base, qtype, axis, scale):
     q = quantize_activation(base, qtype, scale)
     return q, q.dequantize()
 """
+DRIVER_FRESH = """
+def prog(base, qtype, axis, scale):
+    q = SymmetricQuantizer.apply(base, qtype, axis, scale)
+    d1 = q.dequantize()
+    with torch.no_grad():
+        d2 = q.dequantize()
+        d3 = q.dequantize()
+    return q, d1, d2, d3
+"""
 DRIVER_TWICE = """
 def prog(base, qtype, axis, scale):
     q = SymmetricQuantizer.apply(base, qtype, axis, scale)
@@ -68,25 +77,68 @@ def load(run, **kw):
     return E
 
 
+def part_fresh(run):
+    """dequantize() is a function of the quantized tensor: every call (with or without autograd recording) returns a NEW tensor and
+    leaves nothing behind on the quantized tensor - a caller that modifies one result in place cannot change the next one."""
+    for qname in ("qint8", "qfloat8_e4m3fn"):
+        inst = {"qtype": qname, "lemma": "dequantize returns fresh results"}
+        E = load(run)
+        qt = E.load_module(QTYPE).env.lookup(qname)
+        prog = E.snippet(DRIVER_FRESH, SYMQ, {"SymmetricQuantizer": E.get(f"{SYMQ}::SymmetricQuantizer")})
+        ds, dpos = lib.dims("d", 2)
+
+        def setup(E2, ds=ds, dpos=dpos, qt=qt):
+            for c in dpos:
+                E2.assume(c)
+            return [new_input(E2, "X", "float32", ds), qt, None, new_input(E2, "S", "float32", [])], {}
+
+        try:
+            res = E.explore(prog, setup, name="C01.fresh")
+        except Unsupported as u:
+            run.undecide(f"C01/fresh[{qname}]", u, inst)
+            continue
+        run.absorb(E)
+        if not run.expect_paths(res, f"C01/fresh[{qname}]", inst):
+            continue
+        for pi, r in enumerate(res):
+            if r.outcome != "return":
+                continue
+            q, d1, d2, d3 = r.value
+            roots = lambda t: t.root() if isinstance(t, STensor) else None
+            distinct = all(isinstance(t, STensor) for t in (d1, d2, d3)) and len({id(roots(t)) for t in (d1, d2, d3)}) == 3
+            kept = sorted(k for k, v in q.fields.items() if isinstance(v, STensor) and any(v.root() is roots(t) for t in (d1, d2, d3)))
+            run.add(f"C01/dequantize-returns-a-fresh-tensor-every-time[{qname}]/path{pi}", r.hyps, z3.BoolVal(bool(distinct and not kept)), "property", inst,
+                    {"kept_on_the_quantized_tensor": kept}, replay=lambda m, sd, qn=qname: replay_fresh_deq(m, sd, qn))
+
+
 def part_R(run):
     for qname in ("qint8", "qfloat8_e4m3fn", "qfloat8_e5m2"):
         for axis in (None, 0, -1):
             for rank in (1, 2, 3, 4):
-                for entry in ("quantizer", "activation"):
+                for entry in ("quantizer", "activation", "quantizer-expanded-input"):
                     if entry == "activation" and axis is not None:
                         continue
+                    if entry == "quantizer-expanded-input" and not (rank == 2 and axis is None):
+                        continue   # "all shapes and strides": a broadcast (stride 0) source tensor
                     inst = {"qtype": qname, "axis": axis, "rank": rank, "entry": entry, "algebra": "R"}
                     run.count_instance(**inst)
                     E = load(run)
                     qt = E.load_module(QTYPE).env.lookup(qname)
-                    prog = E.snippet(DRIVER if entry == "quantizer" else DRIVER_ACT, SYMQ if entry == "quantizer" else QACT,
+                    prog = E.snippet(DRIVER if entry.startswith("quantizer") else DRIVER_ACT, SYMQ if entry.startswith("quantizer") else QACT,
                                      {"SymmetricQuantizer": E.get(f"{SYMQ}::SymmetricQuantizer")})
                     ds, dpos = lib.dims("d", rank)
 
-                    def setup(E2, ds=ds, dpos=dpos, axis=axis, qt=qt):
+                    def setup(E2, ds=ds, dpos=dpos, axis=axis, qt=qt, entry=entry):
                         for c in dpos:
                             E2.assume(c)
                         x = new_input(E2, "X", "float32", ds)
+                        if entry == "quantizer-expanded-input":
+                            # X[i, j] := C[i, 0] broadcast along the last dimension (the element function is the column's)
+                            from qvc.tm_index import expand_to
+                            col = new_input(E2, "X", "float32", [ds[0], 1])
+                            cf = col._elem
+                            col._elem = lambda idx: z3.Function("X", z3.IntSort(), z3.IntSort(), z3.RealSort())(idx[0], z3.IntVal(0))
+                            x = expand_to(E2, col, [ds[0], ds[1]])
                         s = new_input(E2, "S", "float32", scale_shape(ds, axis))
                         return [x, qt, axis, s], {}
 
@@ -110,10 +162,19 @@ def part_R(run):
                         E.ps["touched"] = []
                         E.drain()
                         xfn = z3.Function("X", *([z3.IntSort()] * rank), z3.RealSort())
-                        x = xfn(*ids)
+                        x = xfn(*ids) if entry != "quantizer-expanded-input" else xfn(ids[0], z3.IntVal(0))
                         eff_axis = q.fields["_axis"]
                         s = scale.elem(bidx(ids, eff_axis))
                         spos = s > 0
+                        # the grid is the one of the scale that was GIVEN ("for every finite positive scale"): the result carries that very scale
+                        sshape = scale_shape(ds, axis)
+                        sgiven_f = z3.Function("S", *([z3.IntSort()] * len(sshape)), z3.RealSort()) if sshape else z3.Const("S", z3.RealSort())
+                        jds, jnb = idx_vars("sj", list(scale.shape))
+                        sg = sgiven_f(*jds) if (sshape and len(jds) == len(sshape)) else (sgiven_f if not sshape else None)
+                        if sg is not None:
+                            fs = E.drain()
+                            run.add(f"C01/result-carries-the-given-scale[{tag}]/path{pi}", r.hyps + jnb + fs + [sg > 0], z3.And(lib.shape_eq(scale.shape, sshape), scale.elem(jds) == sg), "property", inst,
+                                    replay=lambda m, sd, qn=qname, ax=axis, rk=rank, en=entry: replay_given_scale(m, sd, qn, ax, rk, en))
                         y = x / s
                         code = data.elem(ids)
                         deq = d.elem(ids)
@@ -143,7 +204,7 @@ def part_R(run):
                             gsub = z3.substitute(goal, (y, Y))
                             fsub = [z3.substitute(f, (y, Y)) for f in facts]
                             run.add(f"C01/nearest-quotient[{tag}]/path{pi}", r.hyps + inb + [spos] + fsub + hv, gsub, "property", inst,
-                                    replay=lambda m, sd, qn=qname, ax=axis, rk=rank: replay_nearest(m, sd, qn, ax, rk))
+                                    replay=lambda m, sd, qn=qname, ax=axis, rk=rank, ex=(entry == "quantizer-expanded-input"): replay_nearest(m, sd, qn, ax, rk, ex))
                             run.add(f"C01/code-in-grid[{tag}]/path{pi}", hy, z3.And(code >= -128, code <= 127), "property", inst)
                         else:
                             # cast to float8 is RNE onto the grid (assumed contract A-TORCH-EW, probed natively):
@@ -159,7 +220,7 @@ def part_R(run):
                                   absr(rne(c) - c) <= absr(z3.RealVal(-qmax) - c)]
                             run.add(f"C01/code-is-cast-of-clamped-quotient[{tag}]/path{pi}", hy, code == rne(c), "property", inst)
                             run.add(f"C01/nearest-quotient[{tag}]/path{pi}", hy + ax, absr(val - y) <= absr(v - y), "property", inst,
-                                    replay=lambda m, sd, qn=qname, ax_=axis, rk=rank: replay_nearest(m, sd, qn, ax_, rk))
+                                    replay=lambda m, sd, qn=qname, ax_=axis, rk=rank, ex=(entry == "quantizer-expanded-input"): replay_nearest(m, sd, qn, ax_, rk, ex))
                         run.add_path_obligations([r], f"C01/exec[{tag}]", inst, kinds=("assert", "torch-pre"))
                     if nret == 0 and not (rank == 1 and axis is not None):
                         run.undecide(f"C01/R[{tag}]", "no returning path", inst)
@@ -363,7 +424,7 @@ def build(run):
     for k in (f"{SYMQ}::SymmetricQuantizer.forward", f"{QBYTES}::QBytesDequantizer.forward", f"{QBYTES}::QBytesTensor.__new__",
               f"{QBYTES}::QBytesTensor.__init__", f"{QBYTES}::QBytesTensor.dequantize", f"{QACT}::quantize_activation", f"{CORE}::dtype_info"):
         run.under_contract(E0, k)
-    for part in (part_R, part_F):
+    for part in (part_R, part_fresh, part_F):
         try:
             part(run)
         except Unsupported as u:
@@ -402,13 +463,15 @@ def native_check(x, scale, qname, axis):
     return None
 
 
-def replay_nearest(model, seed, qname, axis, rank):
+def replay_nearest(model, seed, qname, axis, rank, expanded=False):
     import torch
     torch.manual_seed(seed)
     shape = [3, 4, 2, 5][:rank]
     for dt in (torch.float32, torch.float16, torch.bfloat16):
         for trial in range(20):
             x = (torch.randn(shape) * (10 ** torch.randint(-3, 3, (1,)).item())).to(dt)
+            if expanded:
+                x = x[:, :1].expand(*shape)      # a broadcast source (stride 0 along the last dimension)
             if axis is None:
                 sc = (x.abs().max() / (127 * (1 + trial % 3))).to(dt)
             else:
@@ -477,6 +540,56 @@ def replay_F(model, seed, qname, dtype, clauses=("nan", "near", "monotone", "fin
                 k = int(diff.nonzero()[0])
                 return {"x": xs[k].item(), "scale": sc.item(), "code": codes[k].item(), "code2": q2._data.to(torch.float32)[k].item(),
                         "what": "requantization changes the code", "qtype": qname, "dtype": dtype}
+    return None
+
+
+def replay_fresh_deq(model, seed, qname):
+    import torch
+    from optimum.quanto import qtypes
+    from optimum.quanto.tensor.quantizers import SymmetricQuantizer
+
+    torch.manual_seed(seed)
+    x = torch.randn(3, 4)
+    q = SymmetricQuantizer.apply(x, qtypes[qname], None, torch.tensor(0.05))
+    for grad in (True, False):
+        with torch.set_grad_enabled(grad):
+            y = q.dequantize()
+            want = y.clone()
+            y += 1.0
+            z = q.dequantize()
+        if not torch.equal(z, want):
+            return {"what": "modifying the result of dequantize() in place changes what the next dequantize() returns", "grad_enabled": grad, "qtype": qname,
+                    "max_abs_diff": (z - want).abs().max().item()}
+    return None
+
+
+def replay_given_scale(model, seed, qname, axis, rank, entry):
+    """The returned tensor carries exactly the scale it was given - also tiny (subnormal) and huge ones."""
+    import torch
+    from optimum.quanto import qtypes, quantize_activation
+    from optimum.quanto.tensor.quantizers import SymmetricQuantizer
+
+    torch.manual_seed(seed)
+    shape = [3, 4, 2, 2][:rank]
+    for dt in (torch.float32, torch.float16, torch.bfloat16):
+        fi = torch.finfo(dt)
+        for sv in (0.37, fi.tiny / 8, fi.tiny * fi.eps * 4, fi.max / 1024):
+            x = torch.randn(shape).to(dt)
+            if axis is None:
+                sc = torch.tensor(sv, dtype=dt)
+            else:
+                ss = [1] * rank
+                ss[axis % rank] = shape[axis % rank]
+                sc = torch.full(ss, sv, dtype=dt)
+            if not (sc > 0).all() or not torch.isfinite(sc).all():
+                continue
+            try:
+                q = quantize_activation(x, qtypes[qname], sc) if entry == "activation" else SymmetricQuantizer.apply(x, qtypes[qname], axis, sc)
+            except ValueError:
+                continue
+            if tuple(q._scale.shape) != tuple(sc.shape) or not torch.equal(q._scale, sc):
+                return {"what": "the quantized tensor does not carry the scale it was given", "given": sc.flatten()[0].item(), "carried": q._scale.flatten()[0].item(),
+                        "dtype": str(dt), "qtype": qname, "entry": entry}
     return None
 
 
